@@ -167,14 +167,15 @@ def check(tier: str) -> int:
                 "PYTHONHASHSEED / TZ / cwd variations; non-trivial = cosmetic edges on sweep or nested-parameter nodes")
     run.assumptions = ["YAML anchors/aliases are not generated; wall-clock shift is represented by the TZ dimension only",
                        "History.tla's ObsIsFunctionOfArgs is exercised by re-identifying a configuration after the worker's other work"]
-    for cfg in ("Identity.d2.check",):
-        res = tlc.run_tlc("MC_Identity", cfg, coverage=True, timeout=900)
+    depth = "d2" if tier == "quick" else "d3"
+    for cfg in (f"Identity.{depth}.check",):
+        res = tlc.run_tlc("MC_Identity", cfg, coverage=True, timeout=3000)
         run.add_tlc(res)
         run.require_tlc_ok(res, cfg)
     res = tlc.run_tlc("History", "History.check", coverage=True, timeout=900)
     run.add_tlc(res)
     run.require_tlc_ok(res, "History.check")
-    es = edges("Identity.d2.emit")
+    es = edges(f"Identity.{depth}.emit")
     acts: Dict[str, int] = {}
     for r in pmap(check_chunk, es, chunk=120):
         run.evaluations += r["n"]
